@@ -9,6 +9,7 @@ package c12
 import (
 	"bytes"
 	"fmt"
+	"strings"
 	"testing"
 
 	"verif/kit"
@@ -235,7 +236,7 @@ func short(s string) string {
 func TestC12(t *testing.T) {
 	env := kit.GetEnv()
 	rep := kit.NewReport("C12", env)
-	rep.Rule = "every label vector over size-class representatives for hop counts 2..N (full cross product of forward and return labels), plus hop counts up to 131 with every uniform, single-odd-one-out and two-segment class pattern, plus every label value 1..65535 at every position of 3-hop paths; plus, through the real switches of small gossip-converged meshes (lines, star, ring; plain / stub / lite end points; 1- and 2-byte link labels): every learned route followed as a label-switched source route by the routers' own switch code, the block arriving at the destination reversed and a reply sent back along it; plus routes stored by the routing table for 1..100 relays x 6x6 label classes, announced and re-announced with other labels (blocks must be those of the latest labels, oversized re-announcements refused); a case is non-trivial when forward and return labels are not all in one size class or the path is at/over the 255-byte limit; distinct = distinct (hops, label vector)"
+	rep.Rule = "every label vector over size-class representatives for hop counts 2..N (full cross product of forward and return labels), plus hop counts up to 131 with every uniform, single-odd-one-out and two-segment class pattern, plus every label value 1..65535 at every position of 3-hop paths; every valid path whose block is 190 bytes or longer and every 23rd other one is also carried forward and back in a real frame that is serialized and parsed afresh at every hop (labels in order, bytes outside the block unchanged); plus, through the real switches of small gossip-converged meshes (lines, star, ring; plain / stub / lite end points; 1- and 2-byte link labels): every learned route followed as a label-switched source route by the routers' own switch code, the block arriving at the destination reversed and a reply sent back along it; plus routes stored by the routing table for 1..100 relays x 6x6 label classes, announced and re-announced with other labels (blocks must be those of the latest labels, oversized re-announcements refused); a case is non-trivial when forward and return labels are not all in one size class or the path is at/over the 255-byte limit; distinct = distinct (hops, label vector)"
 	rep.Assumptions = []string{
 		"labels inside a size class behave like the class representatives {1,127 | 128,16383 | 16384,65535}",
 		"label 0 only at the mandatory positions (a zero forward label in the middle is not a valid path)",
@@ -262,6 +263,12 @@ func TestC12(t *testing.T) {
 		rep.Outcome(r.class)
 		if r.key != "" {
 			rep.Violate(r.key, r.detail, map[string]any{"fwd": fwd, "ret": ret[1:]})
+		} else if strings.HasPrefix(r.class, "ok/") && (refSize(fwd, ret) >= 190 || evals%23 == 0) {
+			// the same path with its block carried by a real frame that is parsed at every hop.
+			if k, d := checkWire(fwd, ret); k != "" {
+				rep.Violate(k, d+" "+short(fmt.Sprintf("fwd=%v ret=%v", fwd, ret[1:])), map[string]any{"fwd": fwd, "ret": ret[1:]})
+			}
+			rep.Outcome("wire/carried")
 		}
 		if evals%200000 == 1 {
 			rep.Sample(map[string]any{"hops": len(fwd) + 1, "fwd": fwd, "ret": ret[1:], "outcome": r.class})
